@@ -98,6 +98,23 @@ pub fn exec(rec: &Value, _st: &mut State) -> Value {
     let op = gs(rec, "op");
     let s = scale_of(rec);
     match op {
+        // ---- a circle and a segment that starts hundreds of millions of radii... units away (2^27 + 1): the intersection
+        //      points themselves are small numbers, only the far end of the segment is large
+        "segfar" => {
+            let c = circle(&gvi(rec, "c"), s);
+            let far = (gi(rec, "far") as f64) * s;
+            let lvl = gi(rec, "lvl") as f64 * s;
+            let xe = gi(rec, "xe") as f64 * s;
+            let swap = gi_or(rec, "swap", 0) == 1;
+            let mk = |x: f64, y: f64| if swap { Point2::new(y, x) } else { Point2::new(x, y) };
+            let seg = Segment2::try_new(mk(-far, lvl), mk(xe, lvl)).expect("segment");
+            guarded(|| {
+                let mut pr = P::new(rec);
+                let r = c.intersection(&seg);
+                let pts: Vec<Point2> = r.iter().map(|p| if swap { Point2::new(p.y, p.x) } else { *p }).collect();
+                json!({"pts": pr.ps(&pts), "finite": pr.q.finite})
+            })
+        }
         // ---- outer tangents of two large circles whose radii differ by a few units in millions: the exact integer clauses
         //      would overflow, so the harness reports relative residuals (derived observations, unit 2^-30)
         "ccnear" => {
